@@ -41,6 +41,9 @@ res = json.load(open(outp)) if os.path.exists(outp) else {}
 for prop, kind, name, path in jobs:
     t = time.time()
     cmd = ["/venv/bin/python", os.path.join(here, "runmut.py"), prop, path] + (["--tests"] if "--tests" in sys.argv else [])
+    if "_revert_" in name:
+        # the shrunk failing inputs of fixed defects become the regression replay tier
+        cmd += ["--keep", os.path.join(root, "replays", "regress")]
     r = subprocess.run(cmd, capture_output=True, text=True, cwd=root)
     lines = r.stdout.splitlines()
     head = lines[0] if lines else "NO OUTPUT"
